@@ -896,6 +896,7 @@ func TestFoFree(t *testing.T) {
 
 	for ri := 0; ri < n; ri++ {
 		rng := rand.New(rand.NewSource(seed*50021 + int64(ri))) //nolint:gosec
+		small := os.Getenv("VERIF_FOSMALL") != ""               // small runs for validation against the implementation model (FailoverTrace)
 		cfg := FoCfg{
 			Keys: []string{"k1", "k2"}, SyncUpdate: rng.Intn(2) == 0, SyncRead: rng.Intn(2) == 0, FailHard: rng.Intn(3) == 0,
 			MaxStale: []int{0, 2}[rng.Intn(2)], FailTTL: []int{1, -1}[rng.Intn(2)], UpdTTL: 1, BeTTL: 2, Generic: rng.Intn(3) == 0,
@@ -912,9 +913,17 @@ func TestFoFree(t *testing.T) {
 			km.ByReal[string(real)] = k
 		}
 
+		if small {
+			cfg.StatOn, cfg.LogOn = false, false
+		}
+
 		s := newSched(km, cfg.unit(), cfg.Keys)
 		s.steer = false
 		s.yield = func() { runtime.Gosched() }
+
+		if small {
+			s.serial = &sync.Mutex{}
+		}
 
 		var cmdMu sync.Mutex
 
@@ -959,6 +968,9 @@ func TestFoFree(t *testing.T) {
 		r.prepare(init)
 
 		G := 4 + rng.Intn(9)
+		if small {
+			G = 2 + rng.Intn(3)
+		}
 
 		var wg sync.WaitGroup
 
@@ -975,7 +987,12 @@ func TestFoFree(t *testing.T) {
 
 				gr := rand.New(rand.NewSource(seeds[g])) //nolint:gosec
 
-				for i := 0; i < 3+gr.Intn(6); i++ {
+				gets := 3 + gr.Intn(6)
+				if small {
+					gets = 1 + gr.Intn(3)
+				}
+
+				for i := 0; i < gets; i++ {
 					p := fmt.Sprintf("g%d.%d", g, i)
 					mk := cfg.Keys[gr.Intn(2)]
 					buf := append([]byte(nil), km.ByModel[mk]...)
@@ -1009,8 +1026,16 @@ func TestFoFree(t *testing.T) {
 					cancel()
 
 					if gr.Intn(10) == 0 {
+						if s.serial != nil {
+							s.serial.Lock() // effect and log line in one critical section, like the wrapper's operations
+						}
+
 						fo.Backend().ExpireAll(context.Background())
 						s.rec(Event{Ev: "extexpire"})
+
+						if s.serial != nil {
+							s.serial.Unlock()
+						}
 					}
 				}
 			}(g)
